@@ -85,7 +85,7 @@ func deepCopyAny(v any) any {
 	return v
 }
 
-var mutationKinds = []string{"delete", "retype", "rename", "duplicate", "repoint", "nil", "extreme"}
+var mutationKinds = []string{"delete", "retype", "rename", "duplicate", "repoint", "nil", "extreme", "rekey"}
 
 // applyMutation mutates node i of the tree with the given kind; variant selects among alternatives.
 func applyMutation(tree any, nodeIdx int, kind string, variant int) (desc string, ok bool) {
@@ -115,6 +115,34 @@ func applyMutation(tree any, nodeIdx int, kind string, variant int) (desc string
 		}
 		delete(n.parentMap, n.key)
 		n.parentMap[fmt.Sprintf("%v_renamed", n.key)] = cur
+	case "rekey":
+		// rename within the key's own type: integer keys (unit multipliers, int one-of members, enum values)
+		// become negative, string keys empty / changed in case
+		if n.parentMap == nil {
+			return "", false
+		}
+		var nk any
+		switch k := n.key.(type) {
+		case uint64:
+			nk = -int64(k)
+			if k == 0 {
+				nk = int64(-1)
+			}
+		case int64:
+			nk = -k
+			if k == 0 {
+				nk = int64(-1)
+			}
+		case string:
+			nk = []string{"", strings.ToUpper(k), k + " "}[variant%3]
+		default:
+			return "", false
+		}
+		if _, taken := n.parentMap[nk]; taken {
+			return "", false
+		}
+		delete(n.parentMap, n.key)
+		n.parentMap[nk] = cur
 	case "duplicate":
 		if n.parentMap == nil {
 			n.parentList[n.idx] = deepCopyAny(nodes[(nodeIdx*7+variant)%len(nodes)].get())
@@ -545,7 +573,7 @@ func stripVolatile(s string) string {
 			}
 			continue
 		}
-		if c == '"' || c == '\'' {
+		if c == '"' || c == '\'' || c == '`' {
 			quote = c
 			b.WriteString("<id>")
 			continue
